@@ -46,6 +46,8 @@ func runC10(c *Cfg) {
 	c10Values(c, r.Sub())
 	c10Production(c, r.Sub())
 	c10DocModel(c, r.Sub())
+	c10ExtractModel(c, r.Sub())
+	c10EncErr(c, r.Sub())
 }
 
 // ---- implementation drivers (every call recover-guarded) ---------------------------------
